@@ -3,7 +3,12 @@
    at the start of each iteration) preserves behaviour: for every program that mentions no continue
    flag (it may contain the flags of the break pass), every terminating run, the lowered program started
    in any store agreeing on the other flags produces the same trace, outcome and decisions, and the final
-   stores agree again.  Model = Passes.cont_block (the create_guard_current / create_guard_next state
+   stores agree again.  try/else/finally and with are covered under their exception-free semantics,
+   including the guard that skips the else clause of a try whose body executed the (lowered) continue;
+   `clean` requires finally clauses to contain no break / continue / return.  Proving this case is what
+   exposed that the first repair of the try/else defect in /repo (guard on the loop-wide flag) was itself
+   wrong for a try/else nested in a finally clause (see known_findings.json, fixed list).
+   Model = Passes.cont_block (the create_guard_current / create_guard_next state
    machine of continue_statements.py), tied by structural comparison with the real pass. *)
 From Coq Require Import List Arith Bool.
 Import ListNotations.
@@ -23,4 +28,17 @@ Example ex_c_lowered : fst (fst (cont_block (cflag 0) 1 false false ex_c)) =
 Proof. vm_compute. reflexivity. Qed.
 Example ex_c_run : exec_block 30 ex_c (fun _ => false) [1; 1; 1; 0] = ([1; 2; 3; 1; 2; 3; 4; 5; 1], ONormal, (fun _ => false), []).
 Proof. vm_compute. reflexivity. Qed.
+(* non-vacuity with try: while t1: try: if t2: continue; a3  else: a4  finally: a5 *)
+Definition ex_t : block :=
+  BCons (SWhile (CUser 1) (BCons (STry (BCons (SIf (CUser 2) (BCons SContinue BNil) BNil) (BCons (SAtom 3) BNil)) HNil
+                                      (BCons (SAtom 4) BNil) (BCons (SAtom 5) BNil)) BNil) BNil) BNil.
+Example ex_t_clean : clean_block ex_t = true.
+Proof. vm_compute; reflexivity. Qed.
+Example ex_t_run : exec_block 40 ex_t (fun _ => false) [1; 1; 1; 0; 0] = ([1; 2; 5; 1; 2; 3; 4; 5; 1], ONormal, (fun _ => false), []).
+Proof. vm_compute; reflexivity. Qed.
+Example ex_t_lowered_guards_else : fst (fst (cont_block (cflag 0) 1 false false ex_t)) =
+  BCons (SWhile (CUser 1) (BCons (SSet 4 false) (BCons (STry
+     (BCons (SIf (CUser 2) (BCons (SSet 4 true) BNil) BNil) (BCons (SIf (CNot 4) (BCons (SAtom 3) BNil) BNil) BNil)) HNil
+     (BCons (SIf (CNot 4) (BCons (SAtom 4) BNil) BNil) BNil) (BCons (SAtom 5) BNil)) BNil)) BNil) BNil.
+Proof. vm_compute; reflexivity. Qed.
 Print Assumptions continue_lowering_correct.
